@@ -326,7 +326,8 @@ def fresh_interpreter_solo(ops):
             "import warnings; warnings.simplefilter('ignore'); "
             "from pyx.props import C13; import io, contextlib; b = io.StringIO()\n"
             "with contextlib.redirect_stdout(b):\n    o, d, h = C13.replay([json.loads(sys.argv[1])])\n"
-            "print('@@' + json.dumps(o[0]))") % os.path.dirname(os.path.dirname(os.path.dirname(os.path.abspath(__file__))))
+            "print('@@' + json.dumps(o[0]))\n"
+            "import shutil; d_ = os.getcwd(); os.chdir('/'); shutil.rmtree(d_, ignore_errors=True)") % os.path.dirname(os.path.dirname(os.path.dirname(os.path.abspath(__file__))))
     procs = [(op, subprocess.Popen([sys.executable, '-c', code, json.dumps(op)], stdout=subprocess.PIPE,
                                    stderr=subprocess.DEVNULL, env=dict(os.environ, PYTHONHASHSEED='0')))
              for op in ops]
